@@ -42,10 +42,11 @@ void beltKRPStart(void* state, const octet key[], size_t len,
 {
 	belt_krp_st* st = (belt_krp_st*)state;
 	ASSERT(memIsDisjoint2(level, 12, state, beltKRP_keep()));
+	// сохранить ключ (key может пересекаться с state: сначала прочитать ключ)
+	beltKeyExpand2(st->key, key, len);
+	st->len = len;
 	// block <- ... || level || ...
 	u32From(st->block + 1, level, 12);
-	// сохранить ключ
-	beltKeyExpand2(st->key, key, st->len = len);
 }
 
 void beltKRPStepG(octet key_[], size_t key_len, const octet header[16],
